@@ -664,6 +664,39 @@ func runC09(c *core.Ctx) {
 			c.Sample(map[string]any{"relation": "independence", "config": sp.Name(), "A": q(a), "B": q(b)})
 		}
 	}
+	// (i') line-count boundaries: A is a plain document of exactly n lines, n on both sides of powers of two and ten, B is small
+	// and sensitive to blank-line bookkeeping. State that depends on how many lines came before shows only at such n.
+	bases := []int{100, 128, 256, 512, 1000, 1024, 2048, 4096}
+	if !c.Quick() {
+		bases = append(bases, 8192, 10000, 16384, 32768, 65536)
+	}
+	sensitive := []string{"- a\n\n- b\n", "1. a\n\n   b\n", "> - a\n>\n> - b\n", "- a\n- b\n\n  c\n", "a\n===\n", "    code\n\n    more\n", "```\nx\n\n```\n", "- a\n  - b\n\n  - c\n", "* a\n\n\n* b\n"}
+	k := 0
+	for _, base := range bases {
+		for n := base - 8; n <= base+8; n++ {
+			for shape := 0; shape < 3; shape++ {
+				k++
+				if !c.Mine(k) || n < 1 {
+					continue
+				}
+				var a []byte
+				switch shape {
+				case 0: // one paragraph of n lines
+					a = bytes.Repeat([]byte("line of text\n"), n)
+				case 1: // two-line paragraphs: n lines in total, blank lines included
+					for len(bytes.Split(a, []byte("\n")))-1 < n {
+						a = append(a, "two\nlines\n\n"...)
+					}
+				default: // a tight list of n items
+					a = bytes.Repeat([]byte("- item\n"), n)
+				}
+				for bi, b := range sensitive {
+					c09CheckIndep(c, pool, specs[(k+bi)%len(specs)], &c09Indep{a: a, b: []byte(b), h: bi})
+					c.Count("independence_pairs_at_line_count_boundaries", 1)
+				}
+			}
+		}
+	}
 	// (ii) moving definitions
 	n2 := c.PerShard(c.N(350000, 15000000))
 	for i := 0; i < n2; i++ {
